@@ -262,9 +262,7 @@ func runGridCase(w *wctx, c gridCase) {
 		}
 		huge := v.label == "1<<31"
 		if huge {
-			// an accepted queue length of 2^31 is a 16 GiB (untouched) channel buffer; keep
-			// the collector from scanning it while it is alive
-			hugeBegin()
+			hugeBegin() // see common.go
 		}
 		t := kept
 		kept = nil
@@ -275,7 +273,7 @@ func runGridCase(w *wctx, c gridCase) {
 				r.skipped = true
 				rs = append(rs, r)
 				if huge {
-					hugeEnd()
+					hugeEnd(false)
 				}
 				continue
 			}
@@ -311,8 +309,8 @@ func runGridCase(w *wctx, c gridCase) {
 		}
 		switch {
 		case huge:
-			t.done()
-			hugeEnd()
+			hugeEnd(!r.skipped && r.err == nil)
+			go t.done()
 		case k.reuse && c.state == sConnected && !r.skipped && r.err != nil:
 			kept = t
 		default:
@@ -425,5 +423,8 @@ func gridScenario(name string, kinds func(tier string) []objKind, par int) *scen
 		par:    par,
 		ncases: func(tier string) int { return len(cases(tier)) },
 		run:    func(tier string, idx int, w *wctx) { runGridCase(w, cases(tier)[idx]) },
+		huge:   func(tier string, idx int) bool { return isQLenName(cases(tier)[idx].name) },
 	}
 }
+
+func isQLenName(n string) bool { return n == mangos.OptionReadQLen || n == mangos.OptionWriteQLen }
